@@ -14,11 +14,26 @@ import heapq
 from asyncio import base_events, events, futures
 
 try:
+    from crosshair.tracers import NoTracing
     from crosshair.util import ControlFlowException  # type: ignore
 except Exception:  # pragma: no cover - native replay without crosshair
 
     class ControlFlowException(BaseException):  # type: ignore
         pass
+
+    class NoTracing:  # type: ignore
+        def __enter__(self):
+            return self
+
+        def __exit__(self, *a):
+            return False
+
+
+def _all_tasks(loop) -> list:
+    # CrossHair's weakref model runs gc.collect() on every dereference (15 ms each): take the
+    # snapshot of the task WeakSet untraced
+    with NoTracing():
+        return list(asyncio.all_tasks(loop))
 
 
 class _NoSelector:
@@ -266,7 +281,7 @@ class SimLoop(base_events.BaseEventLoop):
         return self._active
 
     def _check_tasks(self) -> None:
-        for t in list(asyncio.all_tasks(self)):
+        for t in _all_tasks(self):
             if t.done() and not t.cancelled():
                 e = getattr(t, "_exception", None)
                 if isinstance(e, ControlFlowException):
@@ -328,7 +343,7 @@ class SimLoop(base_events.BaseEventLoop):
     def shutdown(self) -> None:
         """cancel what is left, drain, close; leaves no task or finalizer behind for the next path."""
         for _ in range(5):
-            pending = [t for t in asyncio.all_tasks(self) if not t.done()]
+            pending = [t for t in _all_tasks(self) if not t.done()]
             if not pending:
                 break
             for t in pending:
@@ -337,7 +352,7 @@ class SimLoop(base_events.BaseEventLoop):
                 self.run_ready()
             except RuntimeError:
                 break
-        for t in list(asyncio.all_tasks(self)):
+        for t in _all_tasks(self):
             if t.done() and not t.cancelled():
                 t.exception()  # mark retrieved: no "never retrieved" logging from __del__
         self._active = False
